@@ -97,7 +97,7 @@ def run(pid, tier):
     from .. import docgen
     for name, text in docgen.fix_families():
         jobs.append((name, text.encode("utf-8"), "default", []))
-        rule = name.split("/")[3]
+        rule = name.split("/")[3][:5]
         if rule in fixers:
             jobs.append((name, text.encode("utf-8"), "only:" + rule, [x for x in fixers if x != rule]))
     # each fix-capable default rule alone: on the documents of its own directory and on the extra families
